@@ -25,6 +25,8 @@ use std::time::{Duration, Instant};
 
 const WATCHDOG: Duration = Duration::from_secs(15);
 const NONE: usize = usize::MAX;
+const MAX_SERVERS: usize = 5000;
+const MAX_POOLED_CONNS: usize = 256;
 
 // ------------------------------------------------------------------------------------------
 // wire bodies (own definitions; field names are the wire contract)
@@ -294,6 +296,11 @@ impl Servers {
         let key = format!("{srv}|{kind}|{comp}|{chunk}|{depth}|{level}");
         if let Some(a) = self.map.get(&key) {
             return Some(*a);
+        }
+        // every configuration is a listening server that stays up for the run: bound their number (descriptors,
+        // threads); a case that would need one more is skipped by the generator, never reported
+        if self.map.len() >= MAX_SERVERS {
+            return None;
         }
         let opts = StreamOpts {
             chunk_bytes: chunk,
@@ -827,6 +834,7 @@ impl OracleState {
 }
 
 fn exec_raw(sv: &mut Servers, out: &mut Out, idx: &str, p: &Params, script: &str) -> Option<RawResult> {
+    sv.addr(&p.srv, &p.kind, p.comp, p.chunk, p.depth, p.level)?;
     let built = build(p)?;
     let resource = register(built.spec.clone());
     let mut failures: Vec<(String, String)> = Vec::new();
@@ -1081,6 +1089,13 @@ fn exec_raw(sv: &mut Servers, out: &mut Out, idx: &str, p: &Params, script: &str
             if transport_trouble {
                 conn.close(sv);
             } else {
+                if sv.conns.len() >= MAX_POOLED_CONNS {
+                    if let Some(k) = sv.conns.keys().next().cloned() {
+                        if let Some(old) = sv.conns.remove(&k) {
+                            old.close(sv);
+                        }
+                    }
+                }
                 sv.conns.insert(pool_name, conn);
             }
         }
@@ -1567,6 +1582,10 @@ enum HlOut {
 }
 
 fn exec_hl(sv: &mut Servers, out: &mut Out, idx: &str, p: &Params, client: &str, puller: &str) -> Option<RawResult> {
+    sv.addr(&p.srv, &p.kind, p.comp, p.chunk, p.depth, p.level)?;
+    if sv.sync_clients.len() >= MAX_POOLED_CONNS { let k = sv.sync_clients.keys().next().cloned(); if let Some(k) = k { sv.sync_clients.remove(&k); } }
+    if sv.async_clients.len() >= MAX_POOLED_CONNS { let k = sv.async_clients.keys().next().cloned(); if let Some(k) = k { sv.async_clients.remove(&k); } }
+    if sv.ws_clients.len() >= MAX_POOLED_CONNS { let k = sv.ws_clients.keys().next().cloned(); if let Some(k) = k { sv.ws_clients.remove(&k); } }
     let built = build(p)?;
     let resource = register(built.spec.clone());
     let mut failures: Vec<(String, String)> = Vec::new();
@@ -2159,12 +2178,13 @@ fn main() {
         }
     }
     // (D) random fragmentation / lengths / everything
+    let odd_chunks: Vec<usize> = (0..6).map(|_| 1 + r.below(10_000) as usize).collect();
     let n_random = if thorough { 30000 } else { 1200 };
     for _ in 0..n_random {
         let chunk = match r.below(12) {
             // io::copy's 8 KiB buffer boundary, 64 KiB ± 1, odd sizes, anything up to 10000
             0 => *r.pick(&[5usize, 100, 1000, 8191, 8192, 8193, 65535, 65536, 65537]),
-            1 => 1 + r.below(10_000) as usize,
+            1 => odd_chunks[r.below(odd_chunks.len() as u64) as usize],
             _ => *r.pick(&[1usize, 2, 3, 7, 64, 4096, 4096, 64, 7]),
         };
         let n = match r.below(5) { 0 => r.below(6) as usize, 1 => chunk * r.below(5) as usize, 2 => chunk * r.below(5) as usize + 1, 3 => (chunk * (1 + r.below(4) as usize)).saturating_sub(1), _ => r.below(6 * chunk as u64 + 2) as usize };
